@@ -167,6 +167,29 @@ ROUND4 = {
 for _k, _v in ROUND4.items():
     CLAIMED[_k]["text"] += _v
 
+# clauses added in the fifth round (DESIGN.md §8.12)
+ROUND5 = {
+ "C01": " Round 5: the flush at the end writes every primary descriptor block whatever EXT2_FLAG_MASTER_SB_ONLY says (C01.m, shared with C20.c; guards written `A || B` are seen).",
+ "C02": " Round 5: a read whose result is taken as the inode-checksum verdict bypasses pass 1's stashed inode (C02.h).",
+ "C04": " Round 5: in the block-device emulation the channel is chosen by the device the request names - fs->io for K_DEV_FS, journal_io otherwise (C04.f).",
+ "C05": " Round 5: -D folds case only in directories that carry EXT4_CASEFOLD_FL (C05.h).",
+ "C06": " Round 5: directory-block walkers in debugfs validate rec_len before they stride by it (C06.f); rw_bitmaps.c and resize2fs -P's minimum-size computation joined the reference scope; two genuine defects (endless dirsearch, SIGSEGV in resize2fs -f -P) repaired.",
+ "C08": " Round 5: a helper that re-points i_file_acl in the caller's inode copy raises its out-flag on every successful return (C08.h).",
+ "C09": " Round 5: an indirect block is released only after it was found empty (C09.t); the punched range is carried correctly from level to level (C09.u; two genuine defects repaired).",
+ "C10": " Round 5: an index node's limit is computed with the index tail, not the leaf tail (C10.k); a name longer than EXT2_NAME_LEN is refused before insertion (C10.l); '/name' is looked up in the root (C10.j); three genuine defects repaired.",
+ "C11": " Round 5: a full index node is recognised before its limit is lowered (C11.h); switching dir_index off leads to the directory rewrite or to a request for e2fsck with and without metadata_csum (C11.i; genuine defect repaired).",
+ "C12": " Round 5: every return of 0 of a tool's undo set-up has switched to undo_io_manager or found no undo directory (C12.l).",
+ "C14": " Round 5: the external journal's ext2 superblock is verified through a handle with metadata_csum forced on (C14.k).",
+ "C15": " Round 5: nothing that can fail follows the release of an attribute's old value inode (C15.g).",
+ "C16": " Round 5: a copy takes every header field from its source (C16.f); bulk get clears its output on every path (C16.g); compare converts cluster indices to block numbers (C16.h); two genuine defects repaired.",
+ "C17": " Round 5: data read from the device is copied only into a cache slot taken for a block that was absent (C17.e).",
+ "C20": " Round 5: the flush2 writer rules see guards written `A || B`.",
+}
+for _k, _v in ROUND5.items():
+    CLAIMED[_k]["text"] += _v
+for _k in CLAIMED:
+    CLAIMED[_k]["text"] += " Names of locals and parameters are mapped onto the pinned tree's before any rule runs (renaming all of them is silent)."
+
 checks = []
 na = []
 for p in props:
